@@ -1,13 +1,10 @@
-(* C02, "never sent before merged": a change is sent to the device only by a proposal whose Commit phase is done
-   (phase-order invariant of Proofs/P2_Order.v) and - PARTIAL - whose index has been merged into the stored
-   configuration (Committed.Index >= index).  The second half is proved under the named predicate [commit_guard]
-   assumed in every reachable world (a proposal in Commit-Doing sees Committed.Index = its PrevIndex or its index already
-   merged): [commit_merged_of_guard] derives "Commit done => merged" from it (the merge effects precede the status write
-   in the effect list, so the status write implies the merge), and [applied_le_committed_of_guard] derives
-   Applied.Index <= Committed.Index.  What is missing to discharge [commit_guard] is the chain invariant "the initialised
-   proposals of a target form one PrevIndex/NextIndex chain (no two share a PrevIndex, PrevIndex = 0 only for the first)",
-   which needs the argument that at most one transaction is linking its proposals at a time
-   (rec_tx_createprop / reconcile_createprop state the creation guard). *)
+(* C02, "never sent before merged", first layer: a change is sent to the device only by a proposal whose Commit phase is
+   done (phase-order invariant of Proofs/P2_Order.v), and IF the Commit guard holds in every reachable world
+   ([commit_guard]: a proposal in Commit-Doing sees Committed.Index = its PrevIndex or its own index already merged) then
+   "Commit done => merged" ([commit_merged_of_guard]: the merge effects precede the status write in the effect list, so
+   the status write implies the merge) and Applied.Index <= Committed.Index ([applied_le_committed_of_guard]).
+   The guard itself is discharged in Proofs/P2_CursorGuard.v from the chain invariant (P2_CursorLink.v,
+   P2_CursorChainInv.v); the unconditional theorems are there. *)
 From stdpp Require Import gmap.
 From RecordUpdate Require Import RecordUpdate.
 From Coq Require Import NArith Lia.
